@@ -218,6 +218,11 @@ func (w *World) DoPut(t *rapid.T, a mm.Addr) {
 	if rej(want) && rej(got) && ((own | tgt).Admits(got)) {
 		return // both reject; which of several applicable reasons is reported is not fixed
 	}
+	w.M = before.Clone()
+	if s.Kind == uni.Lock && w.M.PutWith(s, w.Epoch, got) == got {
+		w.Seen["lock-on-inherited-tombstone"] = true
+		return // admission of a LOCK on a target that only inherits a tombstone is not specified
+	}
 	w.M = before
 	if w.OnAdmission != nil && w.OnAdmission(w, s, want, got) {
 		if again := w.M.Put(s, w.Epoch); again == got {
@@ -470,7 +475,7 @@ func (w *World) Actions() map[string]func(*rapid.T) {
 		"delete": del, "revive": revive,
 		"epoch1": epoch, "epoch2": epoch,
 		"inhumeContainer": func(t *rapid.T) {
-			if rapid.IntRange(0, 2).Draw(t, "really") == 0 {
+			if rapid.IntRange(0, 4).Draw(t, "really") == 0 {
 				inhumeCnr(t)
 			} else {
 				put(t)
@@ -479,7 +484,9 @@ func (w *World) Actions() map[string]func(*rapid.T) {
 	}
 	if !w.NoDeleteContainer {
 		acts["deleteContainer"] = func(t *rapid.T) {
-			if rapid.IntRange(0, 2).Draw(t, "really") == 0 {
+			// mostly what GC does: delete a container that carries the GC mark
+			rm := w.M.RemovedContainers()
+			if n := rapid.IntRange(0, 9).Draw(t, "really"); (len(rm) > 0 && n < 4) || n == 0 {
 				deleteCnr(t)
 			} else {
 				mark(t)
